@@ -10,10 +10,14 @@ Templates == <<
   "{++add++}{--del--}{~~a~>b~~}{>>c<<}{==h==}", "$x+y$ \\\\(z\\\\)", "term\n: definition", "```lang\ncode\n```", "    indented code", "[>ab]: Abbr\n\nab here", "{{TOC}}\n\n# One\n\n## Two [lbl]",
   "<div>html</div>\n\n<!-- c -->", "a &amp; b &#x41; &copy;", "\\*esc\\* \\[b\\]", "[?g]: gloss\n\n[?g]", "- - -\n\n***",
   "![alt](img.png width=\"50px\" height=2cm)", "Title: value\nAuthor: me", "![i][r] [l][r]\n\n[r]: p.png \"T\" width=40px class=\"c\"", "Key: v\nOther Key: w\n\n# h [%key]",
-  "[a](<http://e.org/c) and ![i](<p.png \"t\")", "[a](<http://e.org/c>) [r]\n\n[r]: <http://e.org/d" >>
+  "[a](<http://e.org/c) and ![i](<p.png \"t\")", "[a](<http://e.org/c>) [r]\n\n[r]: <http://e.org/d",
+  \* metadata the package documents of EPUB / OpenDocument quote (dates, identifiers, names): a character at every byte offset of the value
+  "Title: T\nDate: 2026 10 1 x\nAuthor: A B\nuuid: id 1\nCopyright: c\nLanguage: en\n\nbody",
+  \* an outline as the library's own OPML export spells white space (read with the OPML import switched on): a character next to every reference
+  "<opml version=\"1.0\"><body><outline text=\"T\" _note=\"a&#9;b&#10;c&#13;d&amp;e\"/></body></opml>" >>
 VARIABLE c
 Pick(S) == IF Sim THEN {RandomElement(S)} ELSE S
-Cases == {[t |-> t, p |-> p, cp |-> n, cp2 |-> "", nl |-> nl] : t \in Pick(1 .. Len(Templates)), p \in 0 .. 80, n \in Pick(DOMAIN CPs), nl \in Pick(BOOLEAN)}
+Cases == {[t |-> t, p |-> p, cp |-> n, cp2 |-> "", nl |-> nl] : t \in Pick(1 .. Len(Templates)), p \in 0 .. 90, n \in Pick(DOMAIN CPs), nl \in Pick(BOOLEAN)}
 GInit == w = <<>> /\ c \in {x \in Cases : x.p <= Len(Templates[x.t])}
 GNext == Sim /\ UNCHANGED w /\ c' \in {[t |-> t, p |-> p, cp |-> n, cp2 |-> n2, nl |-> nl] : t \in Pick(1 .. Len(Templates)), p \in Pick(0 .. 60), n \in Pick(DOMAIN CPs), n2 \in Pick(DOMAIN CPs), nl \in Pick(BOOLEAN)}
 Emit == (c.p <= Len(Templates[c.t])) => PrintT(ToJson([t |-> c.t, p |-> c.p, cp |-> c.cp, cp2 |-> c.cp2, nl |-> c.nl, pre |-> SubSeq(Templates[c.t], 1, c.p), post |-> SubSeq(Templates[c.t], c.p + 1, Len(Templates[c.t]))]))
